@@ -495,6 +495,22 @@ func runC08(c c08Case, r *rep.Report) (key, msg string, stats map[string]int64) 
 				}
 			}
 			cl.Stop()
+			if key == "" {
+				sock.Close(true)
+				w.StopCandidates()
+				w.Shutdown()
+				time.Sleep(45 * time.Second)
+				rig.Wait()
+				var stuck []string
+				for _, st := range rig.Leftovers() {
+					if strings.Contains(st, "zishang520/engine.io/v2") {
+						stuck = append(stuck, rig.TopFrames(st, 4))
+					}
+				}
+				if len(stuck) > 0 {
+					key, msg = "c08-goroutine-left-behind", fmt.Sprintf("script %v: %d goroutine(s) of the server still alive 45 s after the session and all connections were closed: %s", c.Script, len(stuck), strings.Join(stuck[:min(2, len(stuck))], " | "))
+				}
+			}
 		})
 	}()
 	if pan != nil {
